@@ -1,5 +1,543 @@
 package main
 
+// Replay of solver counterexamples against the real code: an in-package Go test is generated from the
+// model and injected with `go test -overlay` (nothing is written into the repository).
+
+import (
+	"bytes"
+	"encoding/json"
+	"fmt"
+	"go/ast"
+	"go/parser"
+	"go/printer"
+	"go/token"
+	"go/types"
+	"os"
+	"os/exec"
+	"path/filepath"
+	"regexp"
+	"strconv"
+	"strings"
+)
+
+// inputLeaves enumerates the scalar leaves reachable from a parameter (used for get-value and replay).
+func (e *Engine) inputLeaves(s *State, name string, v *Val, depth int, out *[]InputSym) {
+	t := v.T
+	ts := types.TypeString(t, func(p *types.Package) string { return p.Name() })
+	switch u := t.Underlying().(type) {
+	case *types.Basic:
+		*out = append(*out, InputSym{Name: name, Sym: v.S, Type: ts})
+	case *types.Pointer:
+		*out = append(*out, InputSym{Name: "isnil:" + name, Sym: eq(v.S, "0"), Type: "bool"})
+		if depth > 1 {
+			return
+		}
+		if isBigInt(u.Elem()) {
+			*out = append(*out, InputSym{Name: "big:" + name, Sym: fmt.Sprintf("(select %s %s)", s.heap("H:big", "(Array Int Int)"), v.S), Type: "big"})
+			return
+		}
+		if _, ok := u.Elem().Underlying().(*types.Struct); ok {
+			hn, hs := e.ptrHeap(u.Elem())
+			pv := &Val{T: u.Elem(), S: fmt.Sprintf("(select %s %s)", s.heap(hn, hs), v.S)}
+			e.inputLeaves(s, name, pv, depth+1, out)
+		}
+	case *types.Struct:
+		si := e.structSort(t)
+		for i, f := range si.Fields {
+			switch f.Type().Underlying().(type) {
+			case *types.Basic, *types.Slice:
+				e.inputLeaves(s, name+"."+f.Name(), e.getField(v, i), depth, out)
+			case *types.Pointer:
+				if depth < 1 {
+					e.inputLeaves(s, name+"."+f.Name(), e.getField(v, i), depth+1, out)
+				}
+			}
+		}
+	case *types.Slice:
+		if isByte(u.Elem()) {
+			*out = append(*out, InputSym{Name: name, Sym: v.S, Type: ts})
+		} else {
+			*out = append(*out, InputSym{Name: "len:" + name, Sym: "(sl_len " + v.S + ")", Type: "int"})
+		}
+	case *types.Array:
+		if isByte(u.Elem()) {
+			*out = append(*out, InputSym{Name: name, Sym: v.S, Type: ts})
+		}
+	case *types.Interface:
+		*out = append(*out, InputSym{Name: "isnil:" + name, Sym: eq(v.S, "0"), Type: "bool"})
+	}
+}
+
+// specToGo renders a specification expression as Go source (quantifiers are not executable).
+func specToGo(e SpecExpr, olds *[]string) (string, error) {
+	switch x := e.(type) {
+	case *SImplies:
+		a, err := specToGo(x.A, olds)
+		if err != nil {
+			return "", err
+		}
+		b, err := specToGo(x.B, olds)
+		if err != nil {
+			return "", err
+		}
+		return fmt.Sprintf("(!(%s) || (%s))", a, b), nil
+	case *SIff:
+		a, err := specToGo(x.A, olds)
+		if err != nil {
+			return "", err
+		}
+		b, err := specToGo(x.B, olds)
+		if err != nil {
+			return "", err
+		}
+		return fmt.Sprintf("((%s) == (%s))", a, b), nil
+	case *SQuant:
+		return "", fmt.Errorf("quantifier is not executable")
+	case *SGo:
+		var buf bytes.Buffer
+		if err := printer.Fprint(&buf, token.NewFileSet(), x.E); err != nil {
+			return "", err
+		}
+		src := buf.String()
+		for name, sub := range x.Subs {
+			g, err := specToGo(sub, olds)
+			if err != nil {
+				return "", err
+			}
+			src = regexp.MustCompile(`\b`+name+`\b`).ReplaceAllString(src, "("+strings.ReplaceAll(g, "$", "$$")+")")
+		}
+		// old(e) -> __oldK
+		for {
+			i := strings.Index(src, "old(")
+			if i < 0 || (i > 0 && isIdentChar(src[i-1])) {
+				break
+			}
+			end := matchClose(src, i+3)
+			if end < 0 {
+				return "", fmt.Errorf("bad old()")
+			}
+			inner := src[i+4 : end]
+			*olds = append(*olds, inner)
+			src = src[:i] + fmt.Sprintf("__old%d", len(*olds)-1) + src[end+1:]
+		}
+		return src, nil
+	}
+	return "", fmt.Errorf("unknown spec node")
+}
+
+var modelIntRe = regexp.MustCompile(`^\(-\s*([0-9]+)\)$`)
+
+func modelInt(v string) (string, bool) {
+	v = strings.TrimSpace(v)
+	if m := modelIntRe.FindStringSubmatch(v); m != nil {
+		return "-" + m[1], true
+	}
+	if _, err := strconv.ParseUint(v, 10, 64); err == nil {
+		return v, true
+	}
+	if regexp.MustCompile(`^[0-9]+$`).MatchString(v) {
+		return v, true
+	}
+	return "", false
+}
+
+// modelBytes parses a (Seq Int) model value into a Go []byte literal.
+func modelBytes(v string) (string, bool) {
+	v = strings.TrimSpace(v)
+	if strings.Contains(v, "seq.empty") {
+		return "[]byte{}", true
+	}
+	nums := regexp.MustCompile(`\(seq\.unit\s+(\(-\s*[0-9]+\)|[0-9]+)\)`).FindAllStringSubmatch(v, -1)
+	if len(nums) == 0 {
+		return "", false
+	}
+	// make sure the value consists of units only
+	rest := regexp.MustCompile(`\(seq\.unit\s+(\(-\s*[0-9]+\)|[0-9]+)\)`).ReplaceAllString(v, "")
+	rest = strings.NewReplacer("seq.++", "", "(", "", ")", "", " ", "", "\n", "").Replace(rest)
+	if rest != "" {
+		return "", false
+	}
+	var bs []string
+	for _, n := range nums {
+		iv, ok := modelInt(n[1])
+		if !ok {
+			return "", false
+		}
+		x, err := strconv.Atoi(iv)
+		if err != nil || x < 0 || x > 255 {
+			return "", false
+		}
+		bs = append(bs, strconv.Itoa(x))
+	}
+	if len(bs) > 1<<16 {
+		return "", false
+	}
+	return "[]byte{" + strings.Join(bs, ", ") + "}", true
+}
+
+type replayPlan struct {
+	Pkg      string `json:"pkg"`      // import path
+	Dir      string `json:"dir"`      // package directory relative to repo
+	TestName string `json:"test"`
+	Source   string `json:"source"`   // generated test source
+	TestFile string `json:"test_file"` // where the source is stored under /verif
+}
+
 func (r *Report) tryReplay(o *Obligation, rp map[string]interface{}, dir string) bool {
-	return false
+	plan, err := r.buildReplay(o)
+	if err != nil {
+		rp["replay_note"] = "no executable replay: " + err.Error()
+		return false
+	}
+	plan.TestFile = filepath.Join(dir, sanitizeFile(o.Name)+"_replay_test.go")
+	os.WriteFile(plan.TestFile, []byte(plan.Source), 0o644)
+	rp["replay"] = plan
+	ok, out := runReplay(r.eng.repoDir, plan)
+	rp["replay_output"] = firstLines(out, 30)
+	return ok
+}
+
+// runReplay runs the generated test against the real code. ok = the real code misbehaved as predicted.
+func runReplay(repo string, plan *replayPlan) (bool, string) {
+	ov := map[string]map[string]string{"Replace": {filepath.Join(repo, plan.Dir, "zz_govc_replay_test.go"): plan.TestFile}}
+	ovb, _ := json.Marshal(ov)
+	ovf := plan.TestFile + ".overlay.json"
+	os.WriteFile(ovf, ovb, 0o644)
+	cmd := exec.Command("bash", "-c", fmt.Sprintf("ulimit -v 8000000; cd %s && go test -overlay %s -vet=off -count=1 -timeout 60s -run '^%s$' ./%s/ 2>&1", repo, ovf, plan.TestName, plan.Dir))
+	cmd.Env = append(os.Environ(), "GOFLAGS=-mod=mod", "GOPROXY=off", "GOSUMDB=off", "GOTOOLCHAIN=local")
+	out, _ := cmd.CombinedOutput()
+	s := string(out)
+	return strings.Contains(s, "REPLAY-VIOLATION"), s
+}
+
+func (r *Report) buildReplay(o *Obligation) (*replayPlan, error) {
+	eng := r.eng
+	if o.Result == nil || o.Result.Model == nil {
+		return nil, fmt.Errorf("no model")
+	}
+	vc := o.vc
+	if vc.replayFn == nil && vc.replayLemma == nil {
+		return nil, fmt.Errorf("no replay information")
+	}
+	model := map[string]string{}
+	for _, in := range o.Inputs {
+		if v, ok := o.Result.Model[in.Sym]; ok {
+			model[in.Name] = v
+		}
+	}
+	var b strings.Builder
+	var pkgName, pkgDir, pkgPath string
+	var params []*types.Var
+	var recv *types.Var
+	var callExpr string
+	var ensures []*Clause
+	var requires []*Clause
+	var resNames []string
+	if fi := vc.replayFn; fi != nil {
+		pkgName = fi.Pkg.Types.Name()
+		pkgPath = fi.Pkg.PkgPath
+		sig := fi.Obj.Type().(*types.Signature)
+		if sig.Recv() != nil {
+			recv = sig.Recv()
+		}
+		for i := 0; i < sig.Params().Len(); i++ {
+			params = append(params, sig.Params().At(i))
+		}
+		c := eng.contracts[fi.Key]
+		ensures = c.Ensures
+		_, resNames = eng.contractNames(c, fi.Obj, nil, nil)
+		var args []string
+		for _, p := range params {
+			args = append(args, p.Name())
+		}
+		if sig.Variadic() && len(args) > 0 {
+			args[len(args)-1] += "..."
+		}
+		if recv != nil {
+			rn := recv.Name()
+			if fi.Decl.Recv != nil && len(fi.Decl.Recv.List[0].Names) > 0 {
+				rn = fi.Decl.Recv.List[0].Names[0].Name
+			}
+			recv = types.NewVar(0, recv.Pkg(), rn, recv.Type())
+			callExpr = fmt.Sprintf("%s.%s(%s)", rn, fi.Obj.Name(), strings.Join(args, ", "))
+		} else {
+			callExpr = fmt.Sprintf("%s(%s)", fi.Obj.Name(), strings.Join(args, ", "))
+		}
+	} else {
+		l := vc.replayLemma
+		pp := eng.pkgs[l.Pkg]
+		if pp == nil {
+			return nil, fmt.Errorf("lemma package not loaded")
+		}
+		pkgName = pp.Types.Name()
+		pkgPath = pp.PkgPath
+		for _, bd := range l.Params {
+			t, err := eng.resolveType(bd.Type, pp.Types)
+			if err != nil {
+				return nil, err
+			}
+			params = append(params, types.NewVar(0, pp.Types, bd.Name, t))
+		}
+		ensures = l.Ensures
+		requires = l.Requires
+	}
+	rel := strings.TrimPrefix(pkgPath, "github.com/aergoio/aergo/v2/")
+	pkgDir = rel
+	qual := func(p *types.Package) string {
+		if p.Path() == pkgPath {
+			return ""
+		}
+		return p.Name()
+	}
+	imports := map[string]bool{}
+	noteImports := func(t types.Type) {
+		var walk func(t types.Type)
+		walk = func(t types.Type) {
+			switch u := t.(type) {
+			case *types.Named:
+				if u.Obj().Pkg() != nil && u.Obj().Pkg().Path() != pkgPath {
+					imports[u.Obj().Pkg().Path()] = true
+				}
+			case *types.Pointer:
+				walk(u.Elem())
+			case *types.Slice:
+				walk(u.Elem())
+			}
+		}
+		walk(t)
+	}
+	var decl strings.Builder
+	// globals
+	for name, v := range model {
+		if strings.HasPrefix(name, "global:") {
+			iv, ok := modelInt(v)
+			if !ok {
+				if v == "true" || v == "false" {
+					iv = v
+				} else {
+					continue
+				}
+			}
+			fmt.Fprintf(&decl, "\t%s = %s\n", strings.TrimPrefix(name, "global:"), iv)
+		}
+	}
+	mkVar := func(p *types.Var) error {
+		name := p.Name()
+		t := p.Type()
+		noteImports(t)
+		ts := types.TypeString(t, qual)
+		switch u := t.Underlying().(type) {
+		case *types.Basic:
+			mv, ok := model[name]
+			if !ok {
+				fmt.Fprintf(&decl, "\tvar %s %s\n", name, ts)
+				return nil
+			}
+			switch {
+			case u.Info()&types.IsInteger != 0:
+				iv, ok := modelInt(mv)
+				if !ok {
+					return fmt.Errorf("cannot read model value %q of %s", mv, name)
+				}
+				fmt.Fprintf(&decl, "\tvar %s %s = %s\n", name, ts, iv)
+			case u.Info()&types.IsBoolean != 0:
+				fmt.Fprintf(&decl, "\tvar %s %s = %s\n", name, ts, mv)
+			case u.Info()&types.IsString != 0:
+				bl, ok := modelBytes(mv)
+				if !ok {
+					return fmt.Errorf("cannot read model string of %s", name)
+				}
+				fmt.Fprintf(&decl, "\tvar %s %s = %s(%s)\n", name, ts, ts, bl)
+			default:
+				return fmt.Errorf("unsupported basic type %s", ts)
+			}
+			return nil
+		case *types.Slice:
+			if isByte(u.Elem()) {
+				mv, ok := model[name]
+				if !ok {
+					fmt.Fprintf(&decl, "\tvar %s %s\n", name, ts)
+					return nil
+				}
+				bl, ok := modelBytes(mv)
+				if !ok {
+					return fmt.Errorf("cannot read model bytes of %s", name)
+				}
+				fmt.Fprintf(&decl, "\tvar %s %s = %s\n", name, ts, bl)
+				return nil
+			}
+			return fmt.Errorf("slice parameter %s not constructible", name)
+		case *types.Pointer:
+			if model["isnil:"+name] == "true" {
+				fmt.Fprintf(&decl, "\tvar %s %s = nil\n", name, ts)
+				return nil
+			}
+			st, ok := u.Elem().Underlying().(*types.Struct)
+			if !ok {
+				return fmt.Errorf("pointer parameter %s not constructible", name)
+			}
+			ets := types.TypeString(u.Elem(), qual)
+			var fs []string
+			for i := 0; i < st.NumFields(); i++ {
+				f := st.Field(i)
+				mv, ok := model[name+"."+f.Name()]
+				if !ok {
+					continue
+				}
+				if !f.Exported() && f.Pkg() != nil && f.Pkg().Path() != pkgPath {
+					continue
+				}
+				switch fu := f.Type().Underlying().(type) {
+				case *types.Basic:
+					if fu.Info()&types.IsInteger != 0 {
+						if iv, ok := modelInt(mv); ok {
+							fs = append(fs, fmt.Sprintf("%s: %s", f.Name(), iv))
+						}
+					} else if fu.Info()&types.IsBoolean != 0 {
+						fs = append(fs, fmt.Sprintf("%s: %s", f.Name(), mv))
+					} else if fu.Info()&types.IsString != 0 {
+						if bl, ok := modelBytes(mv); ok {
+							fs = append(fs, fmt.Sprintf("%s: string(%s)", f.Name(), bl))
+						}
+					}
+				case *types.Slice:
+					if isByte(fu.Elem()) {
+						if bl, ok := modelBytes(mv); ok {
+							fs = append(fs, fmt.Sprintf("%s: %s", f.Name(), bl))
+						}
+					}
+				}
+			}
+			fmt.Fprintf(&decl, "\tvar %s %s = &%s{%s}\n", name, ts, ets, strings.Join(fs, ", "))
+			return nil
+		}
+		return fmt.Errorf("parameter %s of type %s not constructible", name, ts)
+	}
+	if recv != nil {
+		if err := mkVar(recv); err != nil {
+			return nil, err
+		}
+	}
+	for _, p := range params {
+		if p.Name() == "" || p.Name() == "_" {
+			return nil, fmt.Errorf("unnamed parameter")
+		}
+		if err := mkVar(p); err != nil {
+			return nil, err
+		}
+	}
+	testName := "TestGovcReplay"
+	// body
+	var body strings.Builder
+	kind := baseKind(o.Kind)
+	isPanicKind := map[string]bool{"nil": true, "idx": true, "div": true, "slice": true, "assert-type": true, "panic": true, "nilmap": true, "make": true}[kind]
+	var olds []string
+	var posts []string
+	if strings.HasPrefix(kind, "post") || strings.HasPrefix(kind, "lemma") {
+		for _, en := range ensures {
+			g, err := specToGo(en.E, &olds)
+			if err != nil {
+				continue
+			}
+			posts = append(posts, g)
+		}
+		if len(posts) == 0 {
+			return nil, fmt.Errorf("postconditions are not executable")
+		}
+	} else if !isPanicKind {
+		return nil, fmt.Errorf("obligation kind %s has no observable failure on the real code (Go wraps silently)", kind)
+	}
+	for i, oe := range olds {
+		fmt.Fprintf(&body, "\t__old%d := %s\n", i, oe)
+	}
+	if vc.replayFn != nil {
+		fmt.Fprintf(&body, "\tdefer func() {\n\t\tif r := recover(); r != nil {\n\t\t\tt.Fatalf(\"REPLAY-VIOLATION panic: %%v\", r)\n\t\t}\n\t}()\n")
+		nres := vc.replayFn.Obj.Type().(*types.Signature).Results().Len()
+		if nres > 0 {
+			var rs []string
+			for i := 0; i < nres; i++ {
+				n := resNames[i]
+				if nres == 1 {
+					n = "result"
+				}
+				rs = append(rs, n)
+			}
+			fmt.Fprintf(&body, "\t%s := %s\n", strings.Join(rs, ", "), callExpr)
+			for _, n := range rs {
+				fmt.Fprintf(&body, "\t_ = %s\n", n)
+			}
+			if nres == 1 && resNames[0] != "result0" && resNames[0] != "result" {
+				fmt.Fprintf(&body, "\t%s := result\n\t_ = %s\n", resNames[0], resNames[0])
+			}
+		} else {
+			fmt.Fprintf(&body, "\t%s\n", callExpr)
+		}
+	} else {
+		var olds2 []string
+		for _, rq := range requires {
+			g, err := specToGo(rq.E, &olds2)
+			if err != nil {
+				return nil, fmt.Errorf("lemma hypothesis not executable")
+			}
+			fmt.Fprintf(&body, "\tif !(%s) {\n\t\tt.Skip(\"hypothesis does not hold on the real code for this model\")\n\t}\n", g)
+		}
+	}
+	for _, g := range posts {
+		fmt.Fprintf(&body, "\tif !(%s) {\n\t\tt.Fatalf(\"REPLAY-VIOLATION postcondition does not hold: %%s\", %q)\n\t}\n", g, g)
+	}
+	fmt.Fprintf(&b, "package %s\n\n// generated by govc: replay of %s\n\nimport (\n\t\"testing\"\n", pkgName, o.Name)
+	for p := range imports {
+		fmt.Fprintf(&b, "\t%q\n", p)
+	}
+	fmt.Fprintf(&b, ")\n\n")
+	b.WriteString(`func tdiv[T ~int | ~int8 | ~int16 | ~int32 | ~int64 | ~uint | ~uint8 | ~uint16 | ~uint32 | ~uint64](a, b T) T { return a / b }
+func tmod[T ~int | ~int8 | ~int16 | ~int32 | ~int64 | ~uint | ~uint8 | ~uint16 | ~uint32 | ~uint64](a, b T) T { return a % b }
+
+`)
+	fmt.Fprintf(&b, "func %s(t *testing.T) {\n%s%s}\n", testName, decl.String(), body.String())
+	src := b.String()
+	// sanity: the source must parse
+	if _, err := parser.ParseFile(token.NewFileSet(), "x_test.go", src, 0); err != nil {
+		return nil, fmt.Errorf("generated replay does not parse: %v", err)
+	}
+	_ = ast.Unparen
+	return &replayPlan{Pkg: pkgPath, Dir: pkgDir, TestName: testName, Source: src}, nil
+}
+
+// cmdReplay re-runs a recorded replay file.
+func cmdReplay(args []string) int {
+	if len(args) < 1 {
+		fmt.Fprintln(os.Stderr, "usage: govc replay <replay.json>")
+		return 2
+	}
+	data, err := os.ReadFile(args[0])
+	if err != nil {
+		fmt.Fprintln(os.Stderr, err)
+		return 2
+	}
+	var rp struct {
+		Property   string      `json:"property"`
+		Obligation string      `json:"obligation"`
+		What       string      `json:"what"`
+		Replay     *replayPlan `json:"replay"`
+		Output     string      `json:"solver_output"`
+	}
+	if err := json.Unmarshal(data, &rp); err != nil {
+		fmt.Fprintln(os.Stderr, err)
+		return 2
+	}
+	fmt.Printf("obligation %s: %s\n", rp.Obligation, rp.What)
+	if rp.Replay == nil {
+		fmt.Println("no executable replay recorded (no-failing-input-found); solver output:")
+		fmt.Println(rp.Output)
+		return 1
+	}
+	ok, out := runReplay("/repo", rp.Replay)
+	fmt.Println(out)
+	if ok {
+		fmt.Printf("VIOLATION property=%s replay=%s\n", rp.Property, args[0])
+		return 1
+	}
+	fmt.Println("replay did not reproduce on the current tree")
+	return 0
 }
